@@ -179,12 +179,23 @@ def run(ctx, res):
 
     # ---- SELECTION-FILTER: which tests run is decided only by "is a test" and the -n name filter. Any other
     # condition on the way to `test_items.push` silently drops tests from the run, the counts and the exit status.
+    sel_locals = set()
+    for bi, t in f.calls():
+        if M.callee_name(t) == "eval::eval_tests" and t["args"]:
+            r = f.root_of(t["args"][0], through_named=False)
+            for _ in range(4):
+                if r[0] == "call" and r[2]["args"]:
+                    r = f.root_of(r[2]["args"][0], through_named=False)
+                else:
+                    break
+            if r[0] == "place":
+                sel_locals.add(r[1]["l"])
     pushes = []
     for bi, t in f.calls():
         n = M.callee_name(t) or ""
         if n.endswith("::push") and t["args"]:
             r = f.root_of(t["args"][0], through_named=False)
-            if r[0] == "place" and f.local_name(r[1]["l"]) == "test_items":
+            if r[0] == "place" and r[1]["l"] in sel_locals:
                 pushes.append(bi)
     res.floor("SELECTION-FILTER", "test_items.push sites", len(pushes), 1)
     for pb in pushes:
@@ -269,7 +280,8 @@ def run(ctx, res):
             n = M.callee_name(t) or ""
             if n.endswith("Vec::<T, A>::push") and t["args"]:
                 rr = h.root_of(t["args"][0])
-                if rr[0] == "place" and h.local_name(rr[1]["l"]) == "tests":
+                # the verdict vector: its element type is the (name, Option<EvalError>, ..) row
+                if rr[0] == "place" and "EvalError" in h.local_ty(rr[1]["l"]) and "Vec<(" in h.local_ty(rr[1]["l"]):
                     pushes.append(bi)
         rets = [bi for bi in h.reachable_blocks() if h.blocks[bi]["term"]["t"] == "return"]
         rng = D.path_event_range(h, after, [head] + rets, pushes)
